@@ -10,6 +10,7 @@ import time
 import z3
 from . import vals as V
 from .vals import Val, SeqVal
+from .engine import ReplayMismatch
 from .engine import (State, Unsupported, PathEnd, PyRaise, _Return, _Break, _Continue, PyConst, Obligation,
                      class_axioms)
 from .interp import Interp, FnCtx
@@ -283,6 +284,10 @@ def run_path(reg, c, ex, decisions, segment=0):
         frame_obligations(it, fn.pre_heap, st.heap, locs, fn.pre_alloc, 'frame')
     except PathEnd as e:
         res.outcome = 'cut'
+    except ReplayMismatch as e:
+        res.outcome = 'engine-error'
+        res.error = 'ENGINE-ERROR ' + str(e)
+        st.obligations = []
     except Unsupported as e:
         # the over-approximate feasibility test may have let an impossible path through
         r = solve.discharge(st.all_axioms(), st.pc, z3.BoolVal(False), 5000, want_model=False, use_cli=False)
@@ -349,6 +354,9 @@ def explore(reg, c, ex, prefixes, rep, timeout_ms=10000, budget=None, want_model
             rep.errors.append('engine: z3 error %s on path %r' % (e, dec))
             continue
         rep.outcomes[res.outcome] = rep.outcomes.get(res.outcome, 0) + 1
+        if os.environ.get('PYVC_PATHLOG'):
+            with open(os.environ['PYVC_PATHLOG'], 'a') as _f:
+                _f.write('%s\t%d\t%s\t%s\t%s\n' % (c.target, os.getpid(), res.outcome, ''.join('T' if (d[0] if isinstance(d, tuple) else d) else 'F' for d in dec), res.error or ''))
         if res.outcome == 'return':
             rep.normal_paths += 1
         if res.error:
@@ -496,7 +504,7 @@ def _worker_task(args):
     return target, seg, rep, left
 
 
-def verify_parallel(files, targets, procs=16, timeout_ms=10000, budget=6, max_paths=MAX_PATHS, progress=None):
+def verify_parallel(files, targets, procs=16, timeout_ms=10000, budget=1, max_paths=MAX_PATHS, progress=None):
     """-> {target: FnReport}"""
     import multiprocessing as mp
     ctx = mp.get_context('fork')
@@ -505,6 +513,7 @@ def verify_parallel(files, targets, procs=16, timeout_ms=10000, budget=6, max_pa
         reg.load(f)
     reports = {}
     tasks = []
+    exs = {}
     for c in reg.contracts:
         if not c.verified or (targets is not None and c.target not in targets):
             continue
@@ -521,10 +530,16 @@ def verify_parallel(files, targets, procs=16, timeout_ms=10000, budget=6, max_pa
         rep.dropped, rep.sha, rep.file = ex.dropped, ex.sha, ex.file
         rep.lines = (ex.node.lineno, ex.node.end_lineno)
         rep.statements = statement_texts(ex)
+        exs[c.target] = ex
         for seg in range(len(c.cuts) + 1):
             tasks.append((c.target, seg, [[]], timeout_ms, budget))
     t0 = time.time()
-    with ctx.Pool(procs, initializer=_worker_init, initargs=(files,)) as pool:
+    # every task runs in a process forked afresh from this one (which never touches the solver): a decision prefix
+    # recorded by one worker is replayed by another from the same initial state, so alias resolution and the
+    # syntactic shortcuts take the same course; a replay that meets another condition is an ENGINE-ERROR
+    _W['reg'] = reg
+    _W['ex'] = exs
+    with ctx.Pool(procs, maxtasksperchild=1) as pool:
         pending = [pool.apply_async(_worker_task, (t,)) for t in tasks]
         while pending:
             nxt = []
@@ -542,7 +557,7 @@ def verify_parallel(files, targets, procs=16, timeout_ms=10000, budget=6, max_pa
                         reports[target].errors.append('more than %d paths' % max_paths)
                     continue
                 # split leftovers into several tasks to keep all workers busy
-                chunk = max(1, len(left) // 4) if len(left) > 4 else 1
+                chunk = 1
                 for i in range(0, len(left), chunk):
                     nxt.append(pool.apply_async(_worker_task, ((target, seg, left[i:i + chunk], timeout_ms, budget),)))
             pending = nxt
